@@ -130,8 +130,11 @@ RTOL = {'euclidean': 1e-9, 'mahalanobis': 1e-9, 'poisson': 1e-9, 'correlation': 
 
 
 def pattern_spread_ok(means):
-    """every mean pattern has a range >= 1/4 over channels (sd >= 2^-4 for P <= 8 ... 16)"""
-    return all(float(np.max(m) - np.min(m)) >= 0.25 for m in means)
+    """every mean pattern has a range over channels of at least 1/32 of the largest magnitude
+    (unit-free; for data of magnitude 8 the range is >= 1/4): correlation stays well conditioned"""
+    means = np.asarray(means, dtype=float)
+    top = float(np.max(np.abs(means))) if means.size else 0.0
+    return top > 0 and all(float(np.max(m) - np.min(m)) >= top / 32.0 for m in means)
 
 
 # ---- generators ------------------------------------------------------------------
@@ -151,11 +154,15 @@ def fix_flat_patterns(meas, groups):
     p = len(meas[0])
     if p < 2:
         return meas
+    # the unit of the data: 1 for magnitudes around one, otherwise a power of two two binary orders
+    # below the largest magnitude (data in tesla, volts, raw scanner units, byte values)
+    top = max(abs(v) for r in meas for v in r)
+    unit = 1.0 if 1 / 64.0 <= top <= 16 or top == 0 else 2.0 ** (math.floor(math.log2(top)) - 2)
     for rows in groups:
-        for bump in (0.0, 1.0, 2.0, 4.0):
+        for bump in (0.0, 1.0 * unit, 2.0 * unit, 4.0 * unit):
             mean = [sum(meas[i][k] for i in rows) / len(rows) + (bump if k == 0 else 0.0)
                     for k in range(p)]
-            if max(mean) - min(mean) >= 0.25:
+            if max(mean) - min(mean) >= 0.25 * unit:
                 if bump:
                     for i in rows:
                         meas[i][0] += bump
@@ -174,8 +181,16 @@ def data_matrix(draw, n, p, method, kind=None, positive=False):
             el = st.integers(1, 64).map(lambda k: k / 8.0)
         m = draw(st.lists(st.lists(el, min_size=p, max_size=p), min_size=n, max_size=n))
         return m, kind
-    kind = kind or draw(gen.value_kind())
+    kind = kind or draw(st.one_of(gen.value_kind(), gen.value_kind(), st.sampled_from(['ubyte', 'byte'])))
     m = draw(gen.matrix(n, p, kind=kind))
+    if kind in ('ubyte', 'byte'):
+        return m, kind
+    if method == 'correlation':
+        # correlation distance has no unit: recordings in tesla or volts (1e-13, 1e-6) and raw
+        # scanner units (1e4) give the value of the same data at unit scale
+        e = draw(st.sampled_from([0, 0, 0, -43, -20, 14]))
+        if e:
+            m = [[v * 2.0 ** e for v in row] for row in m]
     if method in ('euclidean', 'mahalanobis', 'crossnobis'):
         # measurements in small / large units: an exact power-of-two factor (the Gram-form
         # tolerances scale with |x|^2, so the oracle stays a proven bound)
@@ -195,6 +210,15 @@ relayout = gen.relayout
 def np_data(m, dtype):
     a = np.array(m, dtype=float)
     if dtype == 'int' and all_integral(a):
+        # integral recordings (spike counts, pixel values, binarised responses) are commonly held in
+        # narrow integer arrays: the storage type is a deterministic function of the values
+        pick = int(np.abs(a).sum()) % 3
+        if pick == 0 and a.size and a.min() >= 0 and a.max() <= 255:
+            return relayout(a.astype(np.uint8))
+        if pick == 1 and a.size and a.min() >= -128 and a.max() <= 127:
+            return relayout(a.astype(np.int8))
+        if pick == 2 and a.size and a.min() >= -32768 and a.max() <= 32767:
+            return relayout(a.astype(np.int16))
         return relayout(a.astype(np.int64))
     return relayout(a)
 
